@@ -114,7 +114,9 @@ class PhasePredictor(QTable):
             raise ValueError("Some timestamps outside predictor range!")
 
         span_ends = self["tmid"] + self["span"] / 2
-        index = np.searchsorted(span_ends.mjd, times.mjd)
+        # Compare MJDs in the same time scale (the MJD of a TAI or TT time
+        # differs from its UTC MJD by tens of seconds).
+        index = np.searchsorted(span_ends.mjd, getattr(times, span_ends.scale).mjd)
         dt = (times - self["tmid"][index]).to_value(u.s)
         return index, dt
 
